@@ -201,7 +201,7 @@ def pair_shard(shard):
 
 
 def replay(case):
-    if case["kind"] == "cache-history":
+    if case["kind"] in ("cache-history", "cache-deep-path"):
         return cachebfs.replay(case)
     if case["kind"] == "policy-pair":
         objs = [tuple(o) for o in case["objs"]]
